@@ -381,6 +381,7 @@ func TestFieldHash(t *testing.T) {
 	g := genFieldCase(12)
 	rec.Check(t, "field", ev.N(1000, 60000), func(rt *rapid.T) {
 		c := g.Draw(rt, "case")
+		rec.Begin("field", c)
 		rec.Report(rt, "field", c, runField(c))
 		// negative control
 		sums := 0
@@ -390,6 +391,7 @@ func TestFieldHash(t *testing.T) {
 			}
 		}
 		c.Tamper = rapid.IntRange(1, sums).Draw(rt, "tamper")
+		rec.Begin("field", c)
 		rec.Report(rt, "field", c, runField(c))
 	})
 }
@@ -605,12 +607,14 @@ func TestPoseidon2Permutation(t *testing.T) {
 			c.RP = rapid.IntRange(0, 40).Draw(rt, "rp")
 		}
 		c.In = rapid.SliceOfN(genElem(f.Q), c.Width, c.Width).Draw(rt, "in")
+		rec.Begin("perm", c)
 		rec.Report(rt, "perm", c, runPerm(c))
 		n := c.Width
 		if c.Op == "compress" {
 			n = 1
 		}
 		c.Tamper = rapid.IntRange(1, n).Draw(rt, "tamper")
+		rec.Begin("perm", c)
 		rec.Report(rt, "perm", c, runPerm(c))
 	})
 }
@@ -746,6 +750,7 @@ func TestMerkle(t *testing.T) {
 		if c.Mut == "sibling" || c.Mut == "index" {
 			c.MutPos = rapid.Uint64Range(0, n-1).Draw(rt, "mutpos")
 		}
+		rec.Begin("merkle", c)
 		rec.Report(rt, "merkle", c, runMerkle(c))
 	})
 }
@@ -903,8 +908,10 @@ func TestFiatShamir(t *testing.T) {
 		}
 		c.OneByOne = rapid.Bool().Draw(rt, "one-by-one")
 		c.Recompute = rapid.Bool().Draw(rt, "recompute")
+		rec.Begin("fs", c)
 		rec.Report(rt, "fs", c, runFS(c))
 		c.Tamper = rapid.IntRange(1, n).Draw(rt, "tamper")
+		rec.Begin("fs", c)
 		rec.Report(rt, "fs", c, runFS(c))
 	})
 }
